@@ -151,7 +151,7 @@ func c13Scenario(p c13Params) *explore.Scenario {
 	}
 	sc.Filter = func(pt *vrt.Point, alt int) bool {
 		inf := pt.Infos[alt]
-		if pt.Alts[alt].Kind == vrt.AltDemote {
+		if pt.Alts[alt].Kind != vrt.AltRun {
 			return true
 		}
 		o := inf.Obj
